@@ -209,6 +209,59 @@ m = re.search(r'name = "j1939"\nversion = "([^"]+)"', lock)
 if not m or m.group(1) != '0.1.33':
     errors.append('Cargo.lock no longer pins j1939 0.1.33 (the modelled crate version): %s' % (m.group(1) if m else None))
 
+# ---- driver factory table, driver vendor()/product(), crate version, queue sizes
+t = src('driver/net/mod.rs')
+arms = re.findall(r'\("([^"]+)",\s*"([^"]+)"\)\s*=>\s*Some\(Box::new\((?:\w+::)*(\w+)::new', t)
+FIXED = {('laixer', 'hcu'): 1, ('laixer', 'vcu'): 2, ('j1939', 'ecu'): 3, ('kübler', 'encoder'): 4,
+         ('kübler', 'inclinometer'): 5, ('j1939', 'ecm'): 6, ('volvo', 'd7e'): 7, ('laixer', 'simulator'): 8}
+TYPE_OF = {1: 'HydraulicControlUnit', 2: 'VehicleControlUnit', 3: 'ElectronicControlUnit', 4: 'KueblerEncoder',
+           5: 'KueblerInclinometer', 6: 'EngineManagementSystem', 7: 'VolvoD7E', 8: 'Simulator'}
+FILE_OF = {1: 'hydraulic.rs', 2: 'vcu.rs', 3: 'ecu.rs', 4: 'encoder.rs', 5: 'inclino.rs', 6: 'engine.rs', 7: 'volvo_ems.rs', 8: 'sim.rs'}
+names = {1: 'laixer_hcu', 2: 'laixer_vcu', 3: 'j1939_ecu', 4: 'kuebler_encoder', 5: 'kuebler_inclinometer', 6: 'j1939_ecm', 7: 'volvo_d7e'}
+seen = {}
+for v, p, ty in arms:
+    k = FIXED.get((v, p))
+    if k is None:
+        errors.append('driver_factory: new (vendor, product) pair not in the modelled table: %s %s' % (v, p)); continue
+    if TYPE_OF[k] != ty:
+        errors.append('driver_factory: (%s,%s) now builds %s (modelled: %s)' % (v, p, ty, TYPE_OF[k]))
+    seen[k] = (v, p)
+for k, nm in names.items():
+    if k not in seen:
+        errors.append('driver_factory: pair for %s no longer present' % nm)
+    defs.append(('key_' + nm, 'Z', '(%d)' % k, 'driver/net/mod.rs driver_factory'))
+def utf8(sv): return '[' + '; '.join(str(b) for b in sv.encode('utf-8')) + ']'
+rows = []
+for k in sorted(seen):
+    if k == 8: continue
+    v, p = seen[k]
+    rows.append('(%s, %s, %d)' % (utf8(v), utf8(p), k))
+defs.append(('factory_table', 'list (list Z * list Z * Z)', '[' + '; '.join(rows) + ']', 'driver_factory keys as UTF-8 bytes'))
+vp = []
+for k in sorted(names):
+    tt = src('driver/net/' + FILE_OF[k])
+    m = re.search(r'impl J1939Unit for %s\s*\{.*?fn vendor\(&self\)\s*->\s*&\'static str\s*\{\s*"([^"]*)"\s*\}.*?fn product\(&self\)\s*->\s*&\'static str\s*\{\s*"([^"]*)"' % TYPE_OF[k], tt, re.S)
+    if not m:
+        errors.append('vendor()/product() of %s not found' % TYPE_OF[k]); continue
+    vp.append('(%d, %s, %s)' % (k, utf8(m.group(1)), utf8(m.group(2))))
+defs.append(('driver_names', 'list (Z * list Z * list Z)', '[' + '; '.join(vp) + ']', 'J1939Unit::vendor()/product() of each driver'))
+t = src('Cargo.toml', os.path.join(repo, 'glonax-runtime'))
+m = re.search(r'^version\s*=\s*"(\d+)\.(\d+)\.(\d+)"', t, re.M)
+if m:
+    for nm, g in (('major', 1), ('minor', 2), ('patch', 3)):
+        defs.append(('version_' + nm, 'Z', '(%d)' % int(m.group(g)), 'glonax-runtime/Cargo.toml version'))
+else:
+    errors.append('crate version not found in glonax-runtime/Cargo.toml')
+t = src('lib.rs')
+want('queue_size_command', t, r'pub const QUEUE_SIZE_COMMAND:\s*usize\s*=\s*([\d_]+)', 'lib.rs consts')
+want('queue_size_signal', t, r'pub const QUEUE_SIZE_SIGNAL:\s*usize\s*=\s*([\d_]+)', 'lib.rs consts')
+t = src('service/authority.rs')
+m = re.search(r'interval_decimation\(Duration::from_millis\(([\d_]+)\),\s*self\.tick,\s*([\d_]+)\)', t)
+if m:
+    defs.append(('status_refresh_cycles', 'Z', '(%d)' % (num(m.group(2)) // num(m.group(1))), 'authority.rs interval_decimation(10 ms, tick, 100)'))
+else:
+    errors.append('authority.rs: interval_decimation call not found')
+
 EXTRA = os.path.join(os.path.dirname(os.path.abspath(__file__)), 'rs2v_extra.py')
 if os.path.exists(EXTRA):
     exec(compile(open(EXTRA).read(), EXTRA, 'exec'))
